@@ -593,7 +593,7 @@ func (e *Engine) sumLemmas(terms []*Term) []*Term {
 // contentFns are uninterpreted functions of a byte range (row, offset, length) that stand for a value determined by the range's
 // content: the integer SetBytes builds, the string a conversion builds. For every pair of occurring applications the generator
 // adds the congruence fact: equal length and pointwise equal bytes give equal values.
-var contentFns = map[string]bool{"bytes2big": true, "bytes2str": true}
+var contentFns = map[string]bool{"bytes2big": true, "bytes2str": true, "bytestok": true}
 
 func (e *Engine) contentLemmas(terms []*Term) []*Term {
 	tb := e.tb
